@@ -610,6 +610,9 @@ fn run_unit(ctx: &str, enc: Encoding, e: RunTimeEndian, t: &[&str]) -> String {
             unit.get_mut(c).set(MARK, AttributeValue::Data1(k));
             ids.other_entries.push(c);
         }
+        // `o 3`: reserved, never added, beyond the other unit's entries vector
+        let r = unit.reserve();
+        ids.other_entries.push(r);
     };
     if other_mode == 1 {
         add_other(&mut dwarf, &mut ids);
@@ -631,6 +634,12 @@ fn run_unit(ctx: &str, enc: Encoding, e: RunTimeEndian, t: &[&str]) -> String {
                 let id = ids.entries[k + 1];
                 unit.get_mut(root).delete_child(id);
             }
+        }
+        // two ids that are reserved and never added: they lie beyond the unit's entries vector (entry indices
+        // kids.len()+1 and kids.len()+2 of the scripts)
+        for _ in 0..2 {
+            let id = unit.reserve();
+            ids.entries.push(id);
         }
     }
     if other_mode == 2 {
@@ -1068,6 +1077,9 @@ pub fn run_glue(t: &[&str]) -> String {
             unit.get_mut(c).set(MARK, AttributeValue::Data1(k));
             ids.other_entries.push(c);
         }
+        // `o 3`: reserved, never added, beyond the other unit's entries vector
+        let r = unit.reserve();
+        ids.other_entries.push(r);
     };
     if other_mode == 1 {
         add_other(&mut dwarf, &mut ids);
@@ -1092,6 +1104,12 @@ pub fn run_glue(t: &[&str]) -> String {
                 let id = ids.entries[k + 1];
                 unit.get_mut(root).delete_child(id);
             }
+        }
+        // two ids that are reserved and never added: they lie beyond the unit's entries vector (entry indices
+        // kids.len()+1 and kids.len()+2 of the scripts)
+        for _ in 0..2 {
+            let id = unit.reserve();
+            ids.entries.push(id);
         }
     }
     if other_mode == 2 {
